@@ -172,7 +172,7 @@ impl Prop for C07 {
         "C07"
     }
     fn rule(&self) -> String {
-        "graphs of all 8 kinds with 21..=60 nodes (plus, one case in 13, a procedurally generated sparse graph with a log-uniform size in 61..=3000 on which the centralities (and, up to 1200 nodes, distance-only all_pairs) run in pools of 2, 5 and 16 threads) (random, tie-rich shapes, unweighted / tie-rich / non-dyadic weights so that the order of floating-point additions would matter). For every graph the five functions (all_pairs with and without paths, multi_source on a generated subset, get_all_shortest_paths_involving, all_pairs / multi_source with target, cutoff and first_only, betweenness raw/normalized, closeness with/without WF) run inside rayon pools of every size 1..=16 entered with install (size 1 takes the serial path and is the reference), each size repeated 2 (quick) / 6 (thorough) times, half of the repetitions with perturbing load (busy tasks spawned into the same pool; the harness itself runs 16 cases at a time on shared pools, which shifts work stealing further); plus 6 scoped threads calling the functions on one &Graph at the same time. Oracle: differential — identical key sets, f64::to_bits equality of every distance and centrality, identical path lists including their order. Non-trivial = n > 20 and the serial result contains a non-integer value or a pair with >= 2 paths; distinct = distinct serialised case.".into()
+        "graphs of all 8 kinds with 21..=60 nodes (plus, one case in 13, a procedurally generated sparse graph with a log-uniform size in 61..=3000 on which the centralities (and, up to 1200 nodes, distance-only all_pairs) run in pools of 2, 5 and 16 threads) (random, tie-rich shapes, unweighted / tie-rich / non-dyadic weights so that the order of floating-point additions would matter). For every graph the five functions (all_pairs with and without paths, multi_source on a generated subset, get_all_shortest_paths_involving, all_pairs / multi_source with target, cutoff and first_only, betweenness raw/normalized, closeness with/without WF) run inside rayon pools of every size 1..=16 and of 24, 32 and 64 threads (wider than the graph) entered with install (size 1 takes the serial path and is the reference), each size repeated 2 (quick) / 6 (thorough) times, half of the repetitions with perturbing load (busy tasks spawned into the same pool; the harness itself runs 16 cases at a time on shared pools, which shifts work stealing further); plus 6 scoped threads calling the functions on one &Graph at the same time. Oracle: differential — identical key sets, f64::to_bits equality of every distance and centrality, identical path lists including their order. Non-trivial = n > 20 and the serial result contains a non-integer value or a pair with >= 2 paths; distinct = distinct serialised case.".into()
     }
     fn assumptions(&self) -> Vec<String> {
         vec![
@@ -244,7 +244,7 @@ impl Prop for C07 {
         };
         out.api_calls += reference.len() as u64;
         let reps = self.tier.pick(2, 6);
-        for threads in 1..=16usize {
+        for threads in (1..=16usize).chain(crate::props::c17::WIDE_POOLS) {
             for rep in 0..reps {
                 let pool = pool_of(threads);
                 if rep % 2 == 1 {
